@@ -28,6 +28,10 @@ Definition collect_sort (s : gstmt) (next : option gstmt) : bool :=
   | GRange (Some (GIdent k _ _)) None _ _ [GAssign [GIdent sl _ _] "=" [GCall (GIdent "append" _ "builtin") [a1; a2] false _]],
     Some (GExprStmt (GCall (GSel (GIdent "sort" _ "pkg") "Strings" _) [srt] false _)) =>
       ident_named a1 sl && ident_named a2 k && ident_named srt sl
+  (* the same with a pre-sized slice:  for k := range m { s[i] = k; i++ } ; sort.Strings(s) *)
+  | GRange (Some (GIdent k _ _)) None _ _ [GAssign [GIndex (GIdent sl _ _) (GIdent i _ _) _] "=" [a2]; GIncDec (GIdent i' _ _) "++"],
+    Some (GExprStmt (GCall (GSel (GIdent "sort" _ "pkg") "Strings" _) [srt] false _)) =>
+      ident_named a2 k && ident_named srt sl && String.eqb i i'
   | _, _ => false
   end.
 
@@ -37,7 +41,7 @@ Definition fill_loop (s : gstmt) : bool :=
   | GRange (Some (GIdent name _ _)) (Some (GIdent idx _ _)) _ (GSel (GIdent _ _ _) "namedArgs" _)
       [GAssign [GIdent v _ _; GIdent ok _ _] ":=" [GIndex (GIdent _ "map" "param") key _];
        GIf [] (GUn "!" okc) [GReturn _] [];
-       GAssign [GIndex (GIdent "args" _ _) (GBin "-" ix (GLit "INT" "1")) _] "=" [val]] =>
+       GAssign [GIndex (GIdent _ "slice" _) (GBin "-" ix (GLit "INT" "1")) _] "=" [val]] =>
       ident_named key name && ident_named okc ok && ident_named ix idx && ident_named val v
   | _ => false
   end.
